@@ -185,33 +185,43 @@ def check_cell_collectors(ctx, db):
 
 
 def check_flatten(ctx, db):
+    """Cell::flatten, from path conditions (enclosing ifs, case labels and guard clauses alike): the four collectors and the removal of
+    the reference run exactly under `type == Cell`; the index advances exactly on the complementary path (so after remove_unordered(i)
+    the same index is examined again); collectors run at unbounded depth into the cell's own arrays."""
     f = db.fn('gdstk::Cell::flatten')
     ctx.touch(f)
-    loop = next((l for l in f.walk() if l.k == 'WhileStmt'), None)
+    loop = next((l for l in f.walk() if l.k in ('WhileStmt', 'ForStmt')), None)
     if loop is None:
         raise AnalysisBroken('Cell::flatten: loop not found')
-    iff = next((s for s in loop.child('body').c if s is not None and s.k == 'IfStmt'), None)
-    ok = iff is not None and iff.child('cond').text().endswith('== gdstk::ReferenceType::Cell)')
-    ctx.check(ok, 'R-SHAPE', 'Cell::flatten/cell-only', f.loc(), 'only ReferenceType::Cell references are expanded')
-    then = iff.child('then') if iff is not None else None
-    calls = [c.callee.split('::')[-1] for c in then.walk() if c.k == 'CXXMemberCallExpr' and (c.callee or '').startswith('gdstk::Reference::get_')] if then is not None else []
+    cellv = tables.enum_values(db, 'gdstk::ReferenceType').get('Cell')
+
+    def cell_only(node):
+        at = tables.path_atoms_with_guards(node, stop=loop)
+        tag = [a for a in at if a[0] == 'eq' and a[1].endswith('->type')]
+        return bool(tag) and all(a[2] == cellv and a[3] is True for a in tag) and all(a[0] == 'eq' and a[1].endswith('->type') for a in at)
+    cols = [c for c in loop.walk() if c.k == 'CXXMemberCallExpr' and (c.callee or '').startswith('gdstk::Reference::get_')]
+    rem = [c for c in loop.walk() if c.k == 'CXXMemberCallExpr' and (c.callee or '').endswith('::remove_unordered')]
+    ok = bool(cols) and all(cell_only(c) for c in cols) and all(cell_only(c) for c in rem)
+    ctx.check(ok, 'R-SHAPE', 'Cell::flatten/cell-only', f.loc(), 'only ReferenceType::Cell references are expanded (and removed)')
+    calls = [c.callee.split('::')[-1] for c in cols]
     ctx.check(sorted(calls) == sorted('get_' + e for e in ELEMS), 'R-AGG', 'Cell::flatten/four-kinds', f.loc(), 'all four element kinds are collected from the removed reference',
               'flatten collects %s, not all four element kinds' % calls)
     okd = True
     okdest = True
-    for c in then.walk() if then is not None else []:
-        if c.k == 'CXXMemberCallExpr' and (c.callee or '').startswith('gdstk::Reference::get_'):
-            e = c.callee.split('get_')[-1]
-            depth_arg = c.args[2] if e == 'polygons' else c.args[1]
-            okd = okd and depth_arg.cv == -1
-            okdest = okdest and c.args[-1].text() == 'this->%s_array' % e[:-1]
+    for c in cols:
+        e = c.callee.split('get_')[-1]
+        depth_arg = c.args[2] if e == 'polygons' else c.args[1]
+        okd = okd and depth_arg.cv == -1
+        okdest = okdest and c.args[-1].text() == 'this->%s_array' % e[:-1]
     ctx.check(okd, 'R-SHAPE', 'Cell::flatten/full-depth', f.loc(), 'collectors are called with depth -1 (unbounded)')
     ctx.check(okdest, 'R-SHAPE', 'Cell::flatten/into-own-arrays', f.loc(), 'each collector appends to the matching element array of the cell itself')
-    rem = [c for c in then.walk() if c.k == 'CXXMemberCallExpr' and (c.callee or '').endswith('::remove_unordered')] if then is not None else []
-    els = iff.child('else') if iff is not None else None
-    inc = els is not None and any(u.k == 'UnaryOperator' and u.op in ('++', 'post++') for u in els.walk())
-    inc_then = then is not None and any(u.k == 'UnaryOperator' and u.op in ('++', 'post++') and u.child('sub').k == 'DeclRefExpr' for u in then.walk())
-    ctx.check(len(rem) == 1 and inc and not inc_then, 'R-SHAPE', 'Cell::flatten/reexamine-index', f.loc(), 'after remove_unordered(i) the same index is examined again; i advances only when nothing was removed')
+    # index advance: every `++` of an integer local inside the loop runs exactly where the reference is NOT a Cell
+    incs = [u for u in loop.walk() if u.k == 'UnaryOperator' and u.op in ('++', 'post++') and _strip_casts(u.child('sub')).k == 'DeclRefExpr' and '*' not in (_strip_casts(u.child('sub')).t or '')]
+    def not_cell(node):
+        at = tables.path_atoms_with_guards(node, stop=loop)
+        tag = [a for a in at if a[0] == 'eq' and a[1].endswith('->type')]
+        return bool(tag) and all(a[2] == cellv and a[3] is False for a in tag)
+    ctx.check(len(rem) == 1 and bool(incs) and all(not_cell(u) for u in incs), 'R-SHAPE', 'Cell::flatten/reexamine-index', f.loc(), 'after remove_unordered(i) the same index is examined again; i advances only when nothing was removed')
 
 
 def run(ctx):
